@@ -353,4 +353,69 @@ theorem toRat_up (x : Float32) (h : x.isFinite = true) : toRat (Cvt.up x : Float
   unfold toRat
   rw [hun, uval_unpackNat64 _ h1, hv, h2, mul_assoc, h3, ← mul_assoc]
 
+/-! ### `f64 → f32` is ONE correct rounding -/
+
+theorem rnd32_of (num den : Nat) (hnum : 0 < num) (hden : 0 < den) (hfin : roundRat fmt32 num den < fmt32.infBits) :
+    Rnd32 (((decompose fmt32 (roundRat fmt32 num den)).1 : ℚ) * (2 : ℚ) ^ (decompose fmt32 (roundRat fmt32 num den)).2)
+      ((num : ℚ) / (den : ℚ)) :=
+  roundRat_rnd fmt32 Format.binary32 (by decide) (by decide) (by rw [b32_minExponent, eminSub32])
+    (by rw [b32_mantissaBits]; rfl) num den hnum hden hfin
+
+/-- **`downBits` is one correct rounding** (Nat level): for a finite binary64 pattern whose image is a finite binary32
+pattern, the sign bit is kept, a zero stays a zero, and the value of the image is the value of the argument rounded
+once, to nearest-even, to binary32 (`Rnd32`). -/
+theorem downBits_val (b : Nat) (hb : b < 2 ^ 64) (hfin : b / 2 ^ 52 % 2 ^ 11 ≠ 2047)
+    (hfin' : downBits b / 2 ^ 23 % 2 ^ 8 ≠ 255) :
+    downBits b / 2 ^ 31 = b / 2 ^ 63 ∧ (b % 2 ^ 63 = 0 → downBits b % 2 ^ 31 = 0) ∧
+    Rnd32 (((decompose fmt32 (downBits b % 2 ^ 31)).1 : ℚ) * (2 : ℚ) ^ (decompose fmt32 (downBits b % 2 ^ 31)).2)
+      (((decompose fmt64 (b % 2 ^ 63)).1 : ℚ) * (2 : ℚ) ^ (decompose fmt64 (b % 2 ^ 63)).2) := by
+  obtain ⟨_, s2, s3, _⟩ := FB.downBits_spec b hb
+  have hmag : b % 2 ^ 63 < 0x7FF0000000000000 := by omega
+  refine ⟨s2 (by omega), s3, ?_⟩
+  have ht : b / 2 ^ 63 % 2 < 2 := Nat.mod_lt _ (by decide)
+  revert hfin'
+  unfold downBits
+  simp only [FB.inf64, FB.inf32, FB.nan32]
+  rw [if_neg (by omega), if_neg (by omega)]
+  split
+  · rename_i h0
+    intro _
+    rw [h0, show b / 2 ^ 63 % 2 * 2 ^ 31 % 2 ^ 31 = 0 by omega, decompose64_sub 0 (by decide),
+      decompose32_sub 0 (by decide)]
+    simp only [Nat.cast_zero, zero_mul]
+    exact Rnd.zero _
+  · rename_i h0
+    have hm0 := (decompose_facts fmt64 (by decide) _ (Nat.pos_of_ne_zero h0)).1
+    generalize decompose fmt64 (b % 2 ^ 63) = p at *
+    obtain ⟨m, e⟩ := p
+    simp only [] at hm0 ⊢
+    have key : ∀ num den : Nat, 0 < num → 0 < den → (num : ℚ) / (den : ℚ) = (m : ℚ) * (2 : ℚ) ^ e →
+        (b / 2 ^ 63 % 2 * 2 ^ 31 + roundRat fmt32 num den) / 2 ^ 23 % 2 ^ 8 ≠ 255 →
+        Rnd32 (((decompose fmt32 ((b / 2 ^ 63 % 2 * 2 ^ 31 + roundRat fmt32 num den) % 2 ^ 31)).1 : ℚ) *
+          (2 : ℚ) ^ (decompose fmt32 ((b / 2 ^ 63 % 2 * 2 ^ 31 + roundRat fmt32 num den) % 2 ^ 31)).2)
+          ((m : ℚ) * (2 : ℚ) ^ e) := by
+      intro num den hnum hden hV hf
+      have hle := FB.roundRat_le_inf fmt32 (by decide) (by decide) num den hden
+      rw [FB.inf32] at hle
+      have hlt : roundRat fmt32 num den < fmt32.infBits := by
+        rw [FB.inf32]
+        generalize roundRat fmt32 num den = r at *
+        omega
+      have hmod : (b / 2 ^ 63 % 2 * 2 ^ 31 + roundRat fmt32 num den) % 2 ^ 31 = roundRat fmt32 num den := by
+        generalize roundRat fmt32 num den = r at *
+        omega
+      rw [hmod, ← hV]
+      exact rnd32_of num den hnum hden hlt
+    split
+    · rename_i he
+      refine key _ 1 (Nat.mul_pos hm0 (Nat.pow_pos (by decide))) (by decide) ?_
+      obtain ⟨n, rfl⟩ := Int.eq_ofNat_of_zero_le he
+      simp
+    · rename_i he
+      refine key m _ hm0 (Nat.pow_pos (by decide)) ?_
+      obtain ⟨n, hn⟩ := Int.eq_ofNat_of_zero_le (show 0 ≤ -e by omega)
+      have he' : e = -(n : Int) := by omega
+      subst he'
+      simp [div_eq_mul_inv]
+
 end Rosu.FErr
